@@ -10,14 +10,14 @@ package referenceserver
 
 //@ func (*feedbackPrinter).Printf
 //@   requires p != nil && p.p != nil
-//@   modifies fbCount
+//@   modifies fbCount, ppN
 //@   assume_ensures fbCount == old(fbCount)[p := old(fbCount)[p] + 1] //# ghost bookkeeping: one feedback line per call
 
 //@ spec wfFeedback(f *feedbackPrinter) bool = f != nil && f.p != nil
 
 //@ func getHeader
 //@   requires wfFeedback(feedback)
-//@   modifies fbCount
+//@   modifies fbCount, ppN
 //@   ensures result_1 == (has(headers, canonKey(headerName)) && len(headers[canonKey(headerName)]) > 0)
 //@   ensures result_0 == ((has(headers, canonKey(headerName)) && len(headers[canonKey(headerName)]) > 0) ? headers[canonKey(headerName)][0] : "")
 //@   ensures (fbCount[feedback] == old(fbCount[feedback])) == !(has(headers, canonKey(headerName)) && len(headers[canonKey(headerName)]) > 1)
@@ -25,7 +25,7 @@ package referenceserver
 
 //@ func getQueryParam
 //@   requires wfFeedback(feedback)
-//@   modifies fbCount
+//@   modifies fbCount, ppN
 //@   ensures result_1 == (has(values, paramName) && len(values[paramName]) > 0)
 //@   ensures result_0 == ((has(values, paramName) && len(values[paramName]) > 0) ? values[paramName][0] : "")
 //@   ensures (fbCount[feedback] == old(fbCount[feedback])) == !(has(values, paramName) && len(values[paramName]) > 1)
@@ -34,7 +34,7 @@ package referenceserver
 // No feedback exactly when the expected HTTP version is a known one and equals the request's.
 //@ func checkHTTPVersion
 //@   requires wfFeedback(feedback) && req != nil
-//@   modifies fbCount
+//@   modifies fbCount, ppN
 //@   ensures (fbCount[feedback] == old(fbCount[feedback])) ==
 //@      ((expected == 1 && req.ProtoMajor == 1) || (expected == 2 && req.ProtoMajor == 2) || (expected == 3 && req.ProtoMajor == 3))
 
@@ -57,7 +57,7 @@ package referenceserver
 // and - for gRPC - the request announces "te: trailers".
 //@ func checkProtocol
 //@   requires wfFeedback(feedback) && req != nil
-//@   modifies fbCount
+//@   modifies fbCount, ppN
 //@   ensures (fbCount[feedback] == old(fbCount[feedback])) ==
 //@      (specProtocol(hdrVal(req.Header, "Content-Type"), req.Method) != 0 &&
 //@       expected == specProtocol(hdrVal(req.Header, "Content-Type"), req.Method) &&
@@ -76,7 +76,7 @@ package referenceserver
 // (identity when absent) is the expected one.
 //@ func checkCompression
 //@   requires wfFeedback(feedback) && req != nil && req.URL != nil
-//@   modifies fbCount
+//@   modifies fbCount, ppN
 //@   ensures @get req.Method == "GET" ==> (fbCount[feedback] == old(fbCount[feedback])) ==
 //@      (1 <= expected && expected <= 6 && !qDup(queryVals(req.URL), "compression") &&
 //@       specCompName(expected) == (qHas(queryVals(req.URL), "compression") ? qVal(queryVals(req.URL), "compression") : "identity"))
@@ -97,7 +97,7 @@ package referenceserver
 // converted to the exact duration, and is removed from the headers whenever present.
 //@ func extractTimeout
 //@   requires wfFeedback(feedback) && headers != nil
-//@   modifies fbCount, map[string][]string @ headers
+//@   modifies fbCount, ppN, map[string][]string @ headers
 //@   ensures @connect-grammar protocol == 1 ==> result_1 == (old(hdrHas(headers, "Connect-Timeout-Ms")) && specConnectTimeoutOK(old(hdrVal(headers, "Connect-Timeout-Ms"))))
 //@   ensures @connect-removed protocol == 1 && old(hdrHas(headers, "Connect-Timeout-Ms")) ==> !has(headers, canonKey("Connect-Timeout-Ms"))
 //@   ensures @connect-exact protocol == 1 && result_1 && specConnectTimeoutOK(old(hdrVal(headers, "Connect-Timeout-Ms"))) ==>
@@ -136,7 +136,7 @@ package referenceserver
 
 //@ func enumValue
 //@   requires wfFeedback(feedback)
-//@   modifies fbCount
+//@   modifies fbCount, ppN
 //@   ensures !result_1 ==> fbCount[feedback] > old(fbCount[feedback])
 
 // No feedback exactly when the X-Expect-Tls header is a boolean, agrees with whether the
@@ -145,7 +145,7 @@ package referenceserver
 //@ func checkTLS
 //@   requires wfFeedback(feedback) && req != nil
 //@   requires req.TLS != nil ==> (forall i int :: 0 <= i && i < len(req.TLS.PeerCertificates) ==> req.TLS.PeerCertificates[i] != nil)
-//@   modifies fbCount
+//@   modifies fbCount, ppN
 //@   ensures (fbCount[feedback] == old(fbCount[feedback])) ==
 //@     (!hdrDup(req.Header, "X-Expect-Tls") && parseBoolOk(hdrVal(req.Header, "X-Expect-Tls")) &&
 //@      parseBoolVal(hdrVal(req.Header, "X-Expect-Tls")) == (req.TLS != nil) &&
@@ -164,7 +164,7 @@ package referenceserver
 //@   ensures @no-codec req.Method != "GET" && (expected == 1 || expected == 2) && !hasPrefix(hdrVal(req.Header, "Content-Type"), "application/") ==>
 //@       (fbCount[feedback] == old(fbCount[feedback])) == !hdrDup(req.Header, "Content-Type")
 //@   requires wfFeedback(feedback) && req != nil && req.URL != nil && req.Body != nil
-//@   modifies fbCount, []byte, lastReadN, lastReadErr, lastReadArr
+//@   modifies fbCount, ppN, []byte, lastReadN, lastReadErr, lastReadArr
 //@   ensures @post req.Method != "GET" && (expected == 1 || expected == 2) && hdrVal(req.Header, "Content-Type") == "application/grpc" ==>
 //@       (fbCount[feedback] == old(fbCount[feedback])) == (expected == 1 && !hdrDup(req.Header, "Content-Type"))
 //@   ensures @invalid expected != 1 && expected != 2 ==> fbCount[feedback] > old(fbCount[feedback])
